@@ -92,7 +92,7 @@ EXC_KINDS = ["ValueError", "KeyError", "RuntimeError", "OSError", "TimeoutError"
              "Weird", "UnicodeDecodeError", "ResponseWrappingError", "LibraryShutdown", "NetworkError",
              "UnparsableMessage", "NotObservable"]
 NONMSG_KINDS = ["None", "str", "int", "bytes", "dict", "list", "tuple", "float", "object", "type"]
-RFAIL_KINDS = ["raises", "none", "badmsg", "raises_direct"]
+RFAIL_KINDS = ["raises", "none", "badmsg", "raises_direct", "str", "tuple"]
 
 
 def _nonmsg(kind, k, aiocoap):
@@ -126,6 +126,13 @@ def _rfail(kind, k, aiocoap):
         raise NoneRenderer(text)
     if kind == "raises_direct":
         raise DirectRaising(text)
+    if kind in ("str", "tuple"):
+        # an error renderer that hands back something that is not a message
+        class WrongTypeRenderer(E.RenderableError):
+            def to_message(self):
+                return text if kind == "str" else (aiocoap.Message(code=aiocoap.Code(128), payload=text.encode()),)
+
+        raise WrongTypeRenderer(text)
     if kind == "badmsg":
         # a diagnostic that is not a str: `self.message.encode` fails inside to_message
         raise E.BadRequest(12345)
@@ -282,6 +289,23 @@ class Run:
             attrs = {}
             for code, h in r["handlers"].items():
                 attrs["render_" + METHOD_NAMES[int(code)]] = self.make_handler(h)
+            if r.get("direct"):
+                # a resource with a render() of its own that does no blockwise assembly: what a handler
+                # returns that is not a message reaches the pipe as it is (interfaces.Resource._render_to_pipe)
+                raw = {"render_" + METHOD_NAMES[int(code)] for code, h in r["handlers"].items()
+                       if h["o"] == "nonmsg"}
+
+                async def needs_blockwise_assembly(self, request):
+                    return False
+
+                async def render(self, request, raw=raw, base=R.Resource.render):
+                    name = "render_%s" % str(request.code).lower()
+                    if name in raw:
+                        return await getattr(self, name)(request)
+                    return await base(self, request)
+
+                attrs["needs_blockwise_assembly"] = needs_blockwise_assembly
+                attrs["render"] = render
             cls = type("GeneratedResource", (R.Resource,), attrs)
             site.add_resource(list(r["path"]), cls())
         return site
